@@ -119,7 +119,7 @@ theorem C04_validator_terminates (song : Song) (root : List Event)
 /-- **End of track.** At an `END` with an empty stack the player resumes at the loop point exactly
 when there is one, time has passed since it was set (`play_time ≠ loop_play_time`, both taken
 after the pending on/off time has been added) and since the last jump back
-(`play_time ≠ last_loop_jump_time`, repository fix 20edf98: a loop section that takes no time ends
+(`play_time ≠ last_loop_jump_time`, repository fix d90bcf9: a loop section that takes no time ends
 the track), and the loop hook agrees; in that case the loop
 count goes up by one and nothing is emitted; otherwise the player is disabled and the end hook
 runs. -/
